@@ -565,8 +565,8 @@ class AcctSim(object):
             if (not exact) and abs(imb) <= F(1, 10 ** 9) * max(1, abs(target), abs(pos)):
                 near = True
             emit = liquidation or abs(iw) >= F(thr)
-            if emit and (isnan(bid) or isnan(ask)):
-                either = True   # only the side the trade does not execute on is missing
+            if (emit or near or near_lot) and (isnan(bid) or isnan(ask)):
+                either = True   # only the side the trade does not execute on is missing (or emission is undecidable within rounding)
             plan[i] = {"target": target, "imb": imb, "iw": iw, "emit": emit, "qty": qty, "near": near or near_lot, "w": w,
                        "exact": exact, "liquidation": liquidation}
         return must_fail, either, plan, reasons
